@@ -93,12 +93,14 @@ class UbxServerBase_(object):
                 state = 'wait-response'
                 response = None
                 t_start = time.time()
+                # One deadline per wait state; _wait() must not re-arm it on every packet
+                time_end = t_start + self.retry_delay_in_ms / 1000.0
 
                 self.parser.empty_queue()
                 self.parser.restart()
 
                 while state != "ok" and state != 'timeout':
-                    packet = self._wait()
+                    packet = self._wait(time_end)
                     if packet:
                         t_duration = time.time() - t_start
                         if state == 'wait-response':
@@ -109,6 +111,7 @@ class UbxServerBase_(object):
                                 if frame_poll.CID.cls == UbxCID.CLASS_CFG:
                                     # Only wait for ack if this is a CFG request ..
                                     state = 'wait-ack'
+                                    time_end = time.time() + self.retry_delay_in_ms / 1000.0
                                 else:
                                     # .. otherwise we are done here
                                     state = 'ok'
@@ -315,7 +318,7 @@ class UbxServerBase_(object):
 
         return res
 
-    def _wait(self):
+    def _wait(self, time_end=None):
         retry_delay_in_s = self.retry_delay_in_ms / 1000.0
         if logger.isEnabledFor(logging.DEBUG):
             logger.debug(f'waiting {retry_delay_in_s}s for response')
@@ -323,7 +326,8 @@ class UbxServerBase_(object):
         # self.parser.empty_queue()
         # self.parser.restart()
 
-        time_end = time.time() + retry_delay_in_s
+        if time_end is None:
+            time_end = time.time() + retry_delay_in_s
         while time.time() < time_end:
             data = self._receive()
             if data:
